@@ -35,6 +35,9 @@ type Spec struct {
 	Sources   []SourceSpec
 	Decls     []*model.Decl
 	Dashboard map[string]any
+	// PGParams is appended to the database URL (pg_url of the file and the pool the process opens), e.g.
+	// "&statement_cache_capacity=0" for a deployment behind a transaction pooler
+	PGParams string
 }
 
 func (sp *Spec) Source(name string) *SourceSpec {
@@ -150,7 +153,7 @@ func New(spec *Spec, snapshots bool) (*Env, error) {
 	pg.SetSchemaScript(shovel.Schema)
 	e := &Env{Spec: spec, PG: pg, Rec: &Recorder{snapshot: snapshots}, Ctx: context.Background()}
 	pg.SetObserver(e.Rec)
-	e.ConfJSON = spec.ConfigJSON(pg.URL())
+	e.ConfJSON = spec.ConfigJSON(e.PGURL())
 	if err := e.openPool(); err != nil {
 		pg.Close()
 		return nil, err
@@ -159,8 +162,11 @@ func New(spec *Spec, snapshots bool) (*Env, error) {
 	return e, nil
 }
 
+// PGURL is the database URL the process under test is given.
+func (e *Env) PGURL() string { return e.PG.URL() + e.Spec.PGParams }
+
 func (e *Env) openPool() error {
-	pool, err := wpg.NewPool(e.Ctx, e.PG.URL())
+	pool, err := wpg.NewPool(e.Ctx, e.PGURL())
 	if err != nil {
 		return err
 	}
@@ -276,7 +282,7 @@ func (e *Env) Crash() {
 // next Crash/Boot starts the process with it, over the same database.
 func (e *Env) Reconfigure(f func(sp *Spec)) {
 	f(e.Spec)
-	e.ConfJSON = e.Spec.ConfigJSON(e.PG.URL())
+	e.ConfJSON = e.Spec.ConfigJSON(e.PGURL())
 }
 
 func (e *Env) Close() {
